@@ -19,6 +19,15 @@ def _wrap(args):
         return case, None, f"{type(e).__name__}: {e}\n{traceback.format_exc()[-800:]}"
 
 
+def _quiet():
+    import warnings
+    warnings.simplefilter("ignore")
+    try:
+        sys.stderr = open(os.devnull, "w")
+    except Exception:  # noqa: BLE001
+        pass
+
+
 def run(cases, run_case, nontrivial=lambda c: True, workers=None, max_failures=20, key=lambda c: json.dumps(c, sort_keys=True, default=str)):
     if os.environ.get("BOUNDED_CASE"):
         cases = [json.loads(os.environ["BOUNDED_CASE"])]
@@ -29,8 +38,9 @@ def run(cases, run_case, nontrivial=lambda c: True, workers=None, max_failures=2
     seen = set()
     distinct = 0
     n = 0
+    _quiet()
     if workers > 1 and len(cases) > 8:
-        with mp.Pool(workers) as pool:
+        with mp.Pool(workers, initializer=_quiet) as pool:
             results = pool.imap_unordered(_wrap, [(run_case, c) for c in cases], chunksize=max(1, len(cases) // (workers * 8)))
             results = list(results)
     else:
